@@ -10,7 +10,7 @@ THEOREMS = ["C14_split_attrs", "C14_swap_attrs", "C14_swizzle_attrs", "C14_flatt
             "C14_merge_attrs", "C14_unflatten_attrs", "C14_unflatten_inverse",
             "C14_estimate_in_shape", "C14_build_in_shape", "C14_build_in_active",
             "C14_build_explicit_shape", "C14_adopt", "C14_adopt_active", "C14_active_is_occupancy",
-            "C14_lazy_attrs", "C14_lazy_project", "C14_model_meets_spec"]
+            "C14_lazy_attrs", "C14_lazy_project", "C14_chain_attrs", "C14_model_meets_spec"]
 COQ_IMPORTS = "From FT Require Import Model.Base Model.Obs Model.C14Attrs Model.C14Build Model.C14Check."
 CHECK_VO = ["Model/C14Check.v"]
 CHECKER = "c14_checker"
@@ -106,24 +106,41 @@ def coq_raw(r):
                                      "None" if owned is None else "(Some %s)" % L.opt(owned["shape"], L.z))
 
 
+def coq_xform(x):
+    if x["op"] == "split":
+        return "(XSplit %s)" % L.nat(x["depth"])
+    if x["op"] == "swizzle":
+        return "(XSwizzle %s)" % L.lst(coq_rid(r) for r in x["ids"])
+    if x["op"] == "swap":
+        return "(XSwap %s)" % L.nat(x["depth"])
+    if x["op"] in ("flatten", "merge"):
+        return "(%s %s %s %s)" % ("XFlatten" if x["op"] == "flatten" else "XMerge", L.nat(x["depth"]),
+                                  L.nat(x["levels"]), L.z(STYLES.index(x["style"])))
+    return "(XUnflatten %s %s)" % (L.nat(x["depth"]), L.nat(x["levels"]))
+
+
+def coq_tattrs(c):
+    return "(mkT %s %s %s %s %s)" % (
+        L.lst(coq_rid(r) for r in c["ids"]),
+        L.opt(c["shape"] if c["auth"] else None, lambda s: L.lst(coq_sh(x) for x in s)),
+        L.z(c["d"]), L.lst(L.b(f) for f in c["fmts"]), L.b(c["mut"]))
+
+
+def coq_points(pts):
+    return L.lst(L.lst(coq_sh(x) for x in pt) for pt in pts)
+
+
 def case_to_coq(c):
+    if c["k"] == "C":
+        steps = L.lst("(mkS %s %s %s)" % (L.nat(st["src"]), coq_xform(st["x"]), coq_points(st["pts"]))
+                      for st in c["steps"])
+        return "(KC %s %s %s)" % (coq_tattrs(c), coq_points(c["pts"]), steps)
     if c["k"] == "X":
         t = "(mkT %s %s %s %s %s)" % (
             L.lst(coq_rid(r) for r in c["ids"]),
             L.opt(c["shape"] if c["auth"] else None, lambda s: L.lst(coq_sh(x) for x in s)),
             L.z(c["d"]), L.lst(L.b(f) for f in c["fmts"]), L.b(c["mut"]))
-        x = c["x"]
-        if x["op"] == "split":
-            xs = "(XSplit %s)" % L.nat(x["depth"])
-        elif x["op"] == "swizzle":
-            xs = "(XSwizzle %s)" % L.lst(coq_rid(r) for r in x["ids"])
-        elif x["op"] == "swap":
-            xs = "(XSwap %s)" % L.nat(x["depth"])
-        elif x["op"] in ("flatten", "merge"):
-            xs = "(%s %s %s %s)" % ("XFlatten" if x["op"] == "flatten" else "XMerge", L.nat(x["depth"]),
-                                    L.nat(x["levels"]), L.z(STYLES.index(x["style"])))
-        else:
-            xs = "(XUnflatten %s %s)" % (L.nat(x["depth"]), L.nat(x["levels"]))
+        xs = coq_xform(c["x"])
         return "(KX %s %s)" % (t, xs)
     if c["k"] == "B":
         return "(KB %s %s %s %s)" % (L.lst(coq_rid(r) for r in c["ids"]), L.opt(c["shape"], L.zlist),
@@ -276,6 +293,186 @@ def gen_kx(rng, want=None):
                 "fmts": [rng.random() < 0.4 for _ in range(n)], "mut": rng.random() < 0.5,
                 "tree": tree, "x": x}
     raise RuntimeError("gen_kx")
+
+
+# ---- chains of transforms: symbolic state (ids, shape, points) and the reference rendering of what
+# each transform does to the stored points (a point = one coordinate per rank; a tensor's tree is
+# the trie of its points, no explicit defaults and no empty sub-fibers are generated)
+def _lst(x):
+    return [_lst(e) for e in x] if isinstance(x, (list, tuple)) else x
+
+
+def _nest(seg):
+    return [seg[0], _nest(seg[1:])] if len(seg) > 2 else list(seg)
+
+
+def ref_apply(st, x):
+    ids, shape, pts = copy.deepcopy(st["ids"]), copy.deepcopy(st["shape"]), st["pts"]
+    op = x["op"]
+    if op == "split":
+        d, step = x["depth"], x["arg"] + 1
+        ids[d:d + 1] = [ids[d] + ".1", ids[d] + ".0"]
+        shape[d:d + 1] = [shape[d], shape[d]]
+        pts = [p[:d] + [p[d] - p[d] % step, p[d]] + p[d + 1:] for p in pts]
+    elif op == "swap":
+        d = x["depth"]
+        for l in [ids, shape]:
+            l[d], l[d + 1] = l[d + 1], l[d]
+        pts = [p[:d] + [p[d + 1], p[d]] + p[d + 2:] for p in pts]
+    elif op == "swizzle":
+        g = [ids.index(r) for r in x["ids"]]
+        ids, shape = [ids[i] for i in g], [shape[i] for i in g]
+        pts = [[p[i] for i in g] for p in pts]
+    elif op in ("flatten", "merge"):
+        d, l, style = x["depth"], x["levels"], x["style"]
+        seg_ids, seg_sh = ids[d:d + l + 1], shape[d:d + l + 1]
+        nid = []
+        for r in seg_ids:
+            nid += r if isinstance(r, list) else [r]
+        if style == "tuple":
+            nsh = list(seg_sh)
+            f = lambda seg: [y for c in seg for y in (c if isinstance(c, list) else [c])]
+        elif style == "pair":
+            nsh = _nest(seg_sh)
+            f = _nest
+        else:
+            nsh = 1
+            for z in seg_sh:
+                nsh *= z
+
+            def f(seg):
+                acc = seg[0]
+                for z, c in zip(seg_sh[1:], seg[1:]):
+                    acc = acc * z + c
+                return acc
+        ids[d:d + l + 1] = [nid]
+        shape[d:d + l + 1] = [nsh]
+        pts = [p[:d] + [f(p[d:d + l + 1])] + p[d + l + 1:] for p in pts]
+    else:
+        d, l = x["depth"], x["levels"]
+
+        def peel(v):
+            return v[0], (v[1] if len(v) == 2 else v[1:])
+        for j in range(l):
+            a, b = peel(ids[d + j])
+            ids[d + j:d + j + 1] = [a, b]
+            a, b = peel(shape[d + j])
+            shape[d + j:d + j + 1] = [a, b]
+            npts = []
+            for p in pts:
+                a, b = peel(p[d + j])
+                npts.append(p[:d + j] + [a, b] + p[d + j + 1:])
+            pts = npts
+    return {"ids": ids, "shape": shape, "auth": st["auth"], "pts": sorted(_lst(pts), key=_key)}
+
+
+def _key(p):
+    return json_dumps(p)        # any total order: the implementation's order is re-sorted the same way
+
+
+def chain_ops(st, rng):
+    """the transforms applicable to a symbolic tensor"""
+    ids, shape, auth = st["ids"], st["shape"], st["auth"]
+    n = len(ids)
+    plain = [isinstance(ids[i], str) and isinstance(shape[i], int) for i in range(n)]
+    out = []
+    for i in range(n):
+        if plain[i] and auth:
+            # not on shape-less tensors: a later tuple/pair flatten over the split "U" rank raises
+            # (Rank.append: max(int own shape, tuple estimate)) - data-level, reported as a suspect
+            out.append({"op": "split", "depth": i, "flavour": "uniform", "arg": rng.randint(1, 2)})
+        if i + 1 < n and plain[i] and plain[i + 1]:
+            out.append({"op": "swap", "depth": i})
+        if isinstance(ids[i], list) and auth:
+            mx = min(n_unflat(shape[i]), len(ids[i]) - 1)
+            for l in range(1, mx + 1):
+                out.append({"op": "unflatten", "depth": i, "levels": l})
+    if all(isinstance(r, str) for r in ids) and n <= 5:
+        perm = ids[:]
+        rng.shuffle(perm)
+        out.append({"op": "swizzle", "ids": perm})
+    for d in range(n - 1):
+        for l in range(1, n - d):
+            seg = range(d, d + l + 1)
+            styles = ["pair"]
+            if all(plain[i] for i in seg):
+                styles.append("tuple")
+            if auth and all(isinstance(shape[i], int) for i in seg):
+                styles.append("linear")
+            for style in styles:
+                out.append({"op": rng.choice(["flatten", "merge"]), "depth": d, "levels": l, "style": style})
+    return out
+
+
+def gen_chain(rng, template=None):
+    n = rng.choice([4, 4, 5])
+    names = NAMES[:]
+    rng.shuffle(names)
+    ids = names[:n]
+    shape = [rng.randint(2, 4) for _ in range(n)]
+    auth = rng.random() < 0.8
+    d = rng.choice([0, 0, 3])
+    pts = set()
+    for _ in range(rng.randint(1, 7)):
+        pts.add(tuple(rng.randint(0, s - 1) for s in shape))
+    pts = sorted(list(p) for p in pts)
+    tree = []
+    for p in pts:                                          # trie literal [[coord, sub]...]
+        cur = tree
+        for i, c_ in enumerate(p):
+            if i == n - 1:
+                v = rng.randint(1, 9)
+                cur.append([c_, v + 1 if v == d else v])
+            else:
+                if not cur or cur[-1][0] != c_:
+                    cur.append([c_, []])
+                cur = cur[-1][1]
+    states = [{"ids": ids, "shape": shape, "auth": auth, "pts": sorted(pts, key=_key)}]
+    steps = []
+
+    def add(src, x):
+        states.append(ref_apply(states[src], x))
+        steps.append({"src": src, "x": x, "pts": states[-1]["pts"]})
+    template = template or rng.choice(["A", "A", "B", "B", "R", "R"])
+    if template == "A":
+        # flatten at depth >= 1 over >= 2 levels, then unflatten in one go and in single steps
+        d0 = rng.randint(1, n - 3)
+        l = rng.randint(2, n - 1 - d0)
+        styles = ["tuple", "pair"] if auth else ["pair"]
+        add(0, {"op": rng.choice(["flatten", "merge"]), "depth": d0, "levels": l, "style": rng.choice(styles)})
+        if auth:
+            add(1, {"op": "unflatten", "depth": d0, "levels": l})
+            add(1, {"op": "unflatten", "depth": d0, "levels": 1})
+            add(3, {"op": "unflatten", "depth": d0 + 1, "levels": l - 1})
+        else:
+            add(1, {"op": "swap", "depth": 0}) if d0 >= 2 else add(0, {"op": "swap", "depth": 0})
+    elif template == "B":
+        # a flatten result is flattened / merged again at the same depth; then the FIRST result is used again
+        d0 = rng.randint(0, n - 3)
+        st1 = rng.choice(["pair", "tuple", "linear"] if auth else ["pair", "tuple"])
+        add(0, {"op": rng.choice(["flatten", "merge"]), "depth": d0, "levels": 1, "style": st1})
+        st2 = "linear" if st1 == "linear" else "pair"
+        lv = rng.randint(1, n - 2 - d0)
+        add(1, {"op": rng.choice(["flatten", "merge"]), "depth": d0, "levels": lv, "style": st2})
+        if auth and st1 != "linear":
+            add(1, {"op": "unflatten", "depth": d0, "levels": 1})
+        else:
+            add(1, {"op": rng.choice(["flatten", "merge"]), "depth": d0, "levels": 1, "style": st2})
+    else:
+        for _ in range(rng.randint(2, 3)):
+            src = len(states) - 1 if rng.random() < 0.6 else rng.randrange(len(states))
+            ops = chain_ops(states[src], rng)
+            if not ops:
+                break
+            add(src, rng.choice(ops))
+    fmts = [rng.random() < 0.3 for _ in range(n)]
+    if any(st["x"]["op"] == "split" for st in steps):
+        # a split "U" rank inside a later tuple/pair flatten raises in the data-level code (mixed int /
+        # tuple comparisons on the materialised default positions): reported as a suspect, not ours
+        fmts = [False] * n
+    return {"k": "C", "ids": ids, "shape": shape, "auth": auth, "d": d,
+            "fmts": fmts, "mut": rng.random() < 0.5,
+            "tree": tree, "pts": states[0]["pts"], "steps": steps, "template": template}
 
 
 def gen_atree(rng, depth, dims, d, own_p, act_p, level_max):
@@ -431,9 +628,12 @@ def streams(tier, rng):
     yield ("build", [gen_kb(rng) for _ in range(450 * mul)], False)
     yield ("constructors", [gen_kb_ctor(rng) for _ in range(300 * mul)], False)
     yield ("lazy", [gen_kl(rng) for _ in range(350 * mul)], False)
+    yield ("chains", [gen_chain(rng) for _ in range(400 * mul)], False)
 
 
 def nontrivial(c):
+    if c["k"] == "C":
+        return len(c["steps"]) >= 2
     if c["k"] == "X":
         return bool(c["tree"])
     if c["k"] == "B":
@@ -442,6 +642,9 @@ def nontrivial(c):
 
 
 def describe(c):
+    if c["k"] == "C":
+        return {"kind": "C:" + c["template"], "chain": "-".join(st["x"]["op"] for st in c["steps"]),
+                "authoritative": c["auth"], "reuses_operand": len({st["src"] for st in c["steps"]}) < len(c["steps"])}
     if c["k"] == "X":
         x = c["x"]
         return {"kind": "X:" + x["op"] + (":" + x.get("style", "") if "style" in x else ""),
@@ -549,6 +752,50 @@ def _dense_in(x):
     return [_dense_in(e) for e in x] if isinstance(x, list) else U.dress(x)
 
 
+def _content(T):
+    """the stored points with a non-default value (one coordinate per level walked), in a canonical
+    order; a transform over an uncompressed ("U") rank materialises that rank's default-valued
+    positions, which are not content"""
+    from fibertree import Fiber
+    d = _d_out(T.getDefault())
+    out = []
+
+    def walk(f, pre):
+        for c_, p in zip(f.coords, f.payloads):
+            if isinstance(p, Fiber):
+                walk(p, pre + [enc_sh(c_)])
+            elif U.undress(p.value) != d:
+                out.append(pre + [enc_sh(c_)])
+    walk(T.getRoot(), [])
+    return sorted(out, key=_key)
+
+
+def _tree_ok(T):
+    """leaf payloads sit exactly at the last rank, and every rank lists exactly the fibers of its level"""
+    from fibertree import Fiber
+    n = len(T.ranks)
+    levels = [[] for _ in range(n + 1)]
+    ok = True
+
+    def walk(f, lvl):
+        nonlocal ok
+        if lvl >= n:
+            ok = False
+            return
+        levels[lvl].append(f)
+        for p in f.payloads:
+            if isinstance(p, Fiber):
+                walk(p, lvl + 1)
+            elif lvl != n - 1:
+                ok = False
+    walk(T.getRoot(), 0)
+    for i, rank in enumerate(T.ranks):
+        fs = rank.getFibers()
+        if len(fs) != len(levels[i]) or any(a is not b for a, b in zip(fs, levels[i])):
+            ok = False
+    return 1 if ok else 0
+
+
 def make_tensor(c):
     from fibertree import Tensor
     T = Tensor.fromFiber(rank_ids=copy.deepcopy(c["ids"]), fiber=_build_x(c["tree"]),
@@ -587,6 +834,12 @@ def run_impl(c):
     import warnings
     warnings.simplefilter("ignore")
     from fibertree import Fiber, Tensor
+    if c["k"] == "C":
+        Ts = [make_tensor(c)]
+        for st in c["steps"]:
+            Ts.append(apply_x(Ts[st["src"]], st["x"]))
+        # everything is observed only now: an operand must still report what it reported before
+        return [[_attrs(T), _content(T), _tree_ok(T)] for T in Ts]
     if c["k"] == "X":
         T = make_tensor(c)
         before = _attrs(T)
@@ -684,6 +937,14 @@ def json_dumps(c):
 
 
 def shrinks(c):
+    if c["k"] == "C":
+        if len(c["steps"]) > 1:
+            used = {st["src"] for st in c["steps"]}
+            if len(c["steps"]) not in used:
+                n = copy.deepcopy(c)
+                n["steps"].pop()
+                yield n
+        return
     if c["k"] == "X":
         for i in range(len(c["tree"])):
             n = copy.deepcopy(c)
@@ -726,7 +987,7 @@ def shrinks(c):
 
 
 def search(disagreeing, rng, rnd):
-    kinds = {c["k"] for c in disagreeing} or {"X", "B", "L"}
+    kinds = {c["k"] for c in disagreeing} or {"X", "B", "L", "C"}
     out = []
     for _ in range(200):
         if "X" in kinds:
@@ -736,4 +997,6 @@ def search(disagreeing, rng, rnd):
             out.append(gen_kb_ctor(rng))
         if "L" in kinds:
             out.append(gen_kl(rng))
+        if "C" in kinds:
+            out.append(gen_chain(rng))
     return out
